@@ -365,11 +365,11 @@ C11F = C11F + [H(_OV + "c11_vec_try_from_json_reports_the_offending_fragment", "
 
 PROPS["C11"] = dict(
 	design_ref="DESIGN.md §4 C11",
-	level_text="Bounded model checking of the mapped iterators and key-based mapped lookups over code maps built per the C05 specification with children of ARBITRARY size (symbolic volumes: the iterators read only sibling volumes, never descend), for arrays of <= 3 items and objects of <= 3 entries with a symbolic query key.",
+	level_text="Bounded model checking of the mapped iterators and key-based mapped lookups over code maps built per the C05 specification with children of ARBITRARY size (symbolic volumes: the iterators read only sibling volumes, never descend), for arrays of <= 3 items and one-key objects of <= 2 entries with a symbolic query key; and of fragment lookup by index (get_fragment / get_array_fragment / Entry::get_fragment) on leaves and stack arrays of leaves with a symbolic index.",
 	level_note="Assumes the C05 layout of the code map (checked separately per fragment kind); parsed documents cannot be produced inside a harness. Fragment lookup (get_fragment / traverse / volume) and the TryFromJson conversions on heap shapes are covered only as far as the thorough tier completes; BTreeMap conversion is outside.",
 	functions=["Value::get_fragment", "get_array_fragment", "Entry::get_fragment", "<[Value] as JsonArray>::iter_mapped", "array::IterMapped::next", "Object::{iter_mapped,get_mapped,get_mapped_entries_with_index,get_unique_mapped,get_unique_mapped_entry}", "object::IterMapped::next", "MappedEntries*/MappedValues*::next"],
-	bounds="<= 3 children per container, child volumes 1..=3, container offset <= 2, code map of 16 entries",
-	outside=["deep heap shapes", "BTreeMap conversion", "get_fragment/traverse/volume on heap values (thorough attempt only)"],
+	bounds="arrays: <= 3 children, child volumes 1..=3, container offset <= 2, code map of 16 entries; objects: patterns '', 'a', 'aa' (one key, up to two entries); fragment lookup: <= 4 leaf items on the stack",
+	outside=["mapped lookups on objects with two distinct keys or three entries (CBMC out of memory)", "the TryFromJson conversions (Vec, BTreeMap, scalars): the harness written for Vec<bool> aborts in CBMC", "get_fragment/traverse/volume/count on non-empty nested heap values", "empty objects as leaves of fragment lookup"],
 	stubs=[STUB_GROW], assumptions=["code map laid out as specified by C05: array child i at base+1+sum of earlier volumes; object entry i at base+1+sum of (2+value volume), key at +1, value at +2"],
 	harnesses=C11H + C11F,
 )
@@ -473,6 +473,12 @@ def _finishes(n):
 	if s.startswith("i2_clear_rebuild") or s.startswith("i3_sort"):
 		return False
 	if s.startswith("i3_") and not s.endswith("_empty"):
+		return False
+	# mapped lookups: objects of two distinct keys or three entries run out of memory (12 GB) within 3 min; the
+	# conversion harness aborts in CBMC (exit 6)
+	if s.startswith("c11_object_mapped_") and s.split("_")[-1] not in ("empty", "a", "aa"):
+		return False
+	if s.startswith("c11_vec_try_from_json"):
 		return False
 	# Object-level Kani harnesses on NON-EMPTY heap objects: 30 min cap reached by every instance (measured)
 	if (s.startswith("c14_index_independence_") or s.startswith("c14_clone_")) and not s.endswith("_empty"):
